@@ -66,6 +66,11 @@ def replay(g, o, assigns, path):
     """Skeleton counterexamples are paths, not inputs: the replay searches the structured family of real inputs/histories of
     replay_src/solver_replay.cpp (mode 'faults') on the REAL solvers."""
     from vlib import replay as RP
+    if "cshift" in g.name:
+        # operator fault at every application of the complex-shift solver, including the root-selection probe solves
+        r0 = RP.run_native(PROP, RP.src("C14_cshift_exc_replay.cpp"), timeout=900, name="replay_cshift")
+        if r0.get("reproduced"):
+            return r0
     return RP.run_native(PROP, RP.src("solver_replay.cpp"), args=['faults'], timeout=900)
 
 
